@@ -1,6 +1,7 @@
 package props
 
 import (
+	"regexp"
 	"go/token"
 	"sort"
 	"strings"
@@ -48,6 +49,8 @@ func rootFieldOf(v ssa.Value, typ string) bool {
 	}
 	return false
 }
+
+var phiName = regexp.MustCompile(`phi:\w*`)
 
 func c13(r *core.Run) {
 	p := r.P
@@ -112,7 +115,7 @@ func c13(r *core.Run) {
 			}
 		}
 		for _, s := range core.Calls(add, isSort) {
-			if !core.IsFieldLoad(core.Args(s)[0].(*ssa.MakeInterface).X, "ConsistentHash.keys") {
+			if tgt := core.Args(s)[0].(*ssa.MakeInterface).X; !core.IsFieldLoad(tgt, "ConsistentHash.keys") && !core.DependsOn(core.Forward(tgt), core.FieldLoad("ConsistentHash.keys")) {
 				o.Fail(p.InstrPos(s), "the sort is not over h.keys")
 			}
 			if w, ok := core.Reach(core.Q{From: []core.At{core.After(s)}, Target: core.IsStoreToField("ConsistentHash.keys")}); ok {
@@ -193,7 +196,7 @@ func c13(r *core.Run) {
 		desc := func(f *ssa.Function) []string {
 			var out []string
 			for _, c := range core.Calls(f, isHashCall) {
-				out = append(out, core.Describe(c.Common().Args[0]))
+				out = append(out, phiName.ReplaceAllString(core.Describe(c.Common().Args[0]), "phi"))
 			}
 			sort.Strings(out)
 			return out
@@ -243,12 +246,12 @@ func c13(r *core.Run) {
 			}
 		}
 		o.Site(n, core.FuncName(get))
-		emptyRing := core.Cmp(token.EQL, core.IsLenOf(core.FieldLoad("ConsistentHash.ring")), core.IsConstInt(0))
-		emptyKeys := core.Cmp(token.EQL, core.IsLenOf(core.FieldLoad("ConsistentHash.keys")), core.IsConstInt(0))
-		emptySlot := core.Cmp(token.EQL, core.IsLenOf(func(v ssa.Value) bool {
-			_, ok := v.(*ssa.Lookup)
+		emptyRing := core.EmptyLen(core.FieldLoad("ConsistentHash.ring"))
+		emptyKeys := core.EmptyLen(core.FieldLoad("ConsistentHash.keys"))
+		emptySlot := core.EmptyLen(func(v ssa.Value) bool {
+			_, ok := core.Forward(v).(*ssa.Lookup)
 			return ok
-		}), core.IsConstInt(0))
+		})
 		isAbsent := func(in ssa.Instruction) bool {
 			ret, ok := in.(*ssa.Return)
 			return ok && len(ret.Results) == 2 && core.Describe(core.Result(ret, 1)) == "const:false"
@@ -315,6 +318,14 @@ func c13(r *core.Run) {
 		if !o.Need(add != nil && get != nil && rem != nil, "AddWithReplicas / Get / Remove") {
 			return
 		}
+		// the key slice as seen from a comparator/predicate: the field itself, or a captured alias of it
+		isKeys := func(v ssa.Value) bool {
+			if core.IsFieldLoad(v, "ConsistentHash.keys") {
+				return true
+			}
+			return core.CapturedLocal(func(st ssa.Value) bool { return core.DependsOn(st, core.FieldLoad("ConsistentHash.keys")) })(v) ||
+				core.DependsOn(core.Forward(v), core.FieldLoad("ConsistentHash.keys"))
+		}
 		keyAt := func(idx func(ssa.Value) bool) func(ssa.Value) bool {
 			return func(v ssa.Value) bool {
 				u, ok := v.(*ssa.UnOp)
@@ -322,7 +333,7 @@ func c13(r *core.Run) {
 					return false
 				}
 				ia, ok := u.X.(*ssa.IndexAddr)
-				return ok && core.IsFieldLoad(ia.X, "ConsistentHash.keys") && idx(ia.Index)
+				return ok && isKeys(ia.X) && idx(ia.Index)
 			}
 		}
 		nthParam := func(f *ssa.Function, n int) func(ssa.Value) bool {
@@ -331,31 +342,46 @@ func c13(r *core.Run) {
 				return ok && len(f.Params) > n && pa == f.Params[n]
 			}
 		}
-		n := 0
-		// comparator of the sort
-		for _, an := range add.AnonFuncs {
-			if len(an.Params) != 2 {
-				continue
+		isFree := func(v ssa.Value) bool {
+			v = core.Strip(v)
+			if u, ok := v.(*ssa.UnOp); ok && u.Op == token.MUL {
+				v = u.X
 			}
-			n++
-			less := core.Cmp(token.LSS, keyAt(nthParam(an, 0)), keyAt(nthParam(an, 1)))
-			for _, ret := range core.Returns(an) {
-				if m, pos := less(core.Result(ret, 0)); !m || !pos {
-					o.Fail(p.InstrPos(ret), "sort comparator is not keys[i] < keys[j] (ring would not be ascending)")
-				}
-			}
+			_, ok := v.(*ssa.FreeVar)
+			return ok
 		}
-		// search predicates
-		for _, f := range []*ssa.Function{get, rem} {
-			for _, an := range f.AnonFuncs {
-				if len(an.Params) != 1 {
+		n := 0
+		// by role: the closures handed to sort.Slice (comparator) and sort.Search (predicate) anywhere in the package
+		for _, f := range p.PkgFuncs(hashPkg) {
+			for _, c := range core.Calls(f, core.CallTo("sort.Slice", "sort.SliceStable", "sort.Search")) {
+				args := core.Args(c)
+				mc, ok := core.Strip(args[len(args)-1]).(*ssa.MakeClosure)
+				if !ok {
+					continue
+				}
+				an := mc.Fn.(*ssa.Function)
+				name := core.Short(core.CalleeName(c))
+				if name == "sort.Search" {
+					if len(an.Params) != 1 {
+						continue
+					}
+					n++
+					geq := core.Cmp(token.GEQ, keyAt(nthParam(an, 0)), isFree)
+					for _, ret := range core.Returns(an) {
+						if m, pos := geq(core.Result(ret, 0)); !m || !pos {
+							o.Fail(p.InstrPos(ret), "%s: search predicate is not keys[i] >= hash", core.FuncName(f))
+						}
+					}
+					continue
+				}
+				if len(an.Params) != 2 {
 					continue
 				}
 				n++
-				geq := core.Cmp(token.GEQ, keyAt(nthParam(an, 0)), core.CapturedLocal(func(v ssa.Value) bool { c, ok := v.(*ssa.Call); return ok && isHashCall(c) }))
+				less := core.Cmp(token.LSS, keyAt(nthParam(an, 0)), keyAt(nthParam(an, 1)))
 				for _, ret := range core.Returns(an) {
-					if m, pos := geq(core.Result(ret, 0)); !m || !pos {
-						o.Fail(p.InstrPos(ret), "%s: search predicate is not keys[i] >= hash", core.FuncName(f))
+					if m, pos := less(core.Result(ret, 0)); !m || !pos {
+						o.Fail(p.InstrPos(ret), "sort comparator is not keys[i] < keys[j] (ring would not be ascending)")
 					}
 				}
 			}
